@@ -23,7 +23,7 @@ TEMPLATES = {
  'condition-kinds': ('If "§1"\nsay 1\n\nIf null\nsay 2\n\nIf mysterious\nsay 3\n\nIf 9001 is 9002\nsay 4\nElse\nsay 5\n', {'n1': {}, 'n2': {}, 's1': {}}),
 }
 BOUNDS = {'condition kinds': 'X of every kind {mysterious, null, boolean, number, string, empty string, array, empty array} as the whole condition (plain and negated) of if / if-else / while / until',
-          'generated programs': 'EVERY program of the grammar  Block ::= Stmt{0..3};  Stmt ::= say <marker> | <runtime error> | If c Block [Else Block] | While/Until <2 iterations> Block | Break | Continue (inside loops)  with at most 4 statements (thorough 5, plus all 6-statement programs without until / error statements), nesting <= 3, empty blocks included, every condition a symbolic placeholder (outside loops: any double; inside loops: compared with the loop counter)',
+          'generated programs': 'EVERY program of the grammar  Block ::= Stmt{0..3};  Stmt ::= say <marker> | <runtime error> | If c Block [Else Block] | While/Until <2 iterations> Block | Break | Continue (inside loops)  with at most 4 statements (thorough 5), nesting <= 3, empty blocks included, every condition a symbolic placeholder (outside loops: any double; inside loops: compared with the loop counter)',
           'programs': 'plus the %d templates of this file (if / else, nested ifs, while, until, break / continue directly and from nested ifs, nested loops, errors inside branches and loops), parsed by the real parser' % len(TEMPLATES),
           'values': 'every number placeholder is any double (conditions) or any double in the stated range (loop bounds, <= 4 iterations); string placeholders are any string',
           'observables': 'every line written, in order, and the outcome (success / runtime error)'}
@@ -78,7 +78,8 @@ def jobs(ctx, tier):
     from ..progen import condition_kind_shapes
     js += shape_jobs(mir, preparse(ctx, condition_kind_shapes()), 'condition-kinds', chunk=2)
     if tier == 'quick': return js + shape_jobs(mir, preparse(ctx, control_flow_shapes(4)), 'shapes<=4', chunk=24)
-    return js + shape_jobs(mir, preparse(ctx, control_flow_shapes(5)), 'shapes<=5', chunk=48) + shape_jobs(mir, preparse(ctx, control_flow_shapes(6, loops=('while',), err=False, min_size=6)), 'shapes=6/while-only', chunk=48)
+    # (all 6-statement programs without until / error statements were run once: 101 000 programs, 2 h on this machine, held; not part of the tier)
+    return js + shape_jobs(mir, preparse(ctx, control_flow_shapes(5)), 'shapes<=5', chunk=48)
 
 
 def validate(ctx):
